@@ -23,7 +23,9 @@ SPEC = dict(
          "index reader pruned at least one fragment/block AND at least one row satisfies the condition (brute force). "
          "distinct_nontrivial = number of such cases (each case is generated exactly once by the odometer; reader "
          "settings are not counted as separate cases); coverage.distinct_nontrivial_conditions = distinct "
-         "(schema, layout, condition) among sampled non-trivial cases",
+         "(schema, layout, condition) among sampled non-trivial cases. Plans with >= 3 used key columns (quick: s,i,time; "
+         "i,j,k; sw,iw,k; i,j,k,l) add the 'deep' families: pairs of comparison atoms on two different key columns and "
+         "one atom per column on three (thorough: four) key columns, on records whose marks differ in any key column",
     assumptions=[
         "rows are in the order the column-store writer's sorter (lib/record SortData / Pad*Slice) produces: nulls first "
         "(boolean null ties with false); the harness enumerates every record that is non-decreasing under that order",
@@ -65,18 +67,24 @@ MANIFEST = dict(
     level="exploration",
     engine="enumx",
     technique="bounded exhaustive enumeration (odometer) of sorted key records x fragment layouts x condition trees x time "
-              "ranges x reader settings on the real index writer and readers (PKIndexWriterImpl.Build, NewKeyCondition, "
+              "ranges x reader settings (1-4 key columns) on the real index writer and readers (PKIndexWriterImpl.Build, NewKeyCondition, "
               "PKIndexReaderImpl.Scan, bloom-filter writer/reader, min-max and set readers) with a brute-force row oracle",
-    text="Every record of <= 5 (thorough 6) rows over 1-3 key columns (string {A,C,D}, integer {1,2}/{1,2,4}, float, boolean, "
+    text="Every record of <= 5 (thorough 6) rows over 1-4 key columns (string {A,C,D}, integer {1,2}/{1,2,4}, float, boolean, "
          "time; nulls in the order the writer's sorter produces them), every fragment size 1-3 (thorough: every composition), "
          "every condition tree of <= 3 atoms over key and non-key columns with = != < <= > >= MATCHPHRASE (literals on, between "
-         "and outside the domain), AND/OR, with and without time bounds, binary and exclusion search, 5 coarse-index settings: "
-         "each fragment that holds a row satisfying the condition (brute force, comparison with null is false) must be inside "
+         "and outside the domain), AND/OR, with and without time bounds, binary and exclusion search, 5 coarse-index settings. "
+         "Three and four used key columns (recursion of checkInAnyRange below its first level): for schemas s,i,time / i,j,k / "
+         "sw,iw,k / i,j,k,l (thorough also nullable, s,i,j,time, records <= 5 rows) every (left mark, rows between, right mark) "
+         "combination of the domain with every pair of comparison atoms on two different key columns (x AND/OR y, full literal "
+         "alphabet, 10 time ranges where time is a key), one atom per column on three columns (both shapes, all AND/OR pairs; "
+         "thorough: full alphabet) and, thorough, on four columns. "
+         "Each fragment that holds a row satisfying the condition (brute force, comparison with null is false) must be inside "
          "the ranges returned by Scan; the same for bloom-filter / min-max / set skip-index readers' MayBeInFragment per block. "
          "Soundness of pruning only (over-reading is allowed). Exhaustive within these bounds.",
     note="Trusts: Go runtime; the harness' row evaluator; the order model of the writer's sorter (self-checked against "
          "record.SortHelper at start-up); tokenizer.SimpleTokenFinder as the meaning of MATCHPHRASE. min-max and set have no "
-         "writer in the repository (index laid out as the reader indexes it). Known findings: right-bound mark, null key as "
-         "+infinity, in-place rewrite of the cached index record (fixes proposed), null boolean key tie, set reader stub. "
-         "Errors/panics of a reader are counted, not reported.",
+         "writer in the repository (index laid out as the reader indexes it). Three defects found by this check are fixed in "
+         "the repository (right-bound mark, null key as +infinity, in-place rewrite of the cached index record); known "
+         "findings left: null boolean key tie (thorough), set reader stub. Errors/panics of a reader are counted, not "
+         "reported. Quick has four key columns only with 1-atom trees and atom pairs; 4-atom trees are thorough only.",
 )
